@@ -29,7 +29,7 @@ CONSTANTS KeyIds,        \* abstract key spellings, 1..NK
           Kinds          \* {"both","enc","dec"} or {"both"}
 
 VARIABLES inst,    \* slot -> NoInst or [kind, cls, tok, ek, dk]
-          dead,    \* slot -> storage state after the last drop: set of arms still holding key material
+          dead,    \* slot -> which union arms of the slot's storage hold key material (live or after drop)
           perm,    \* class -> permutation of Blocks (a function)
           nops,
           last,    \* the last observation [op, slot, in, out] or NoObs
@@ -70,14 +70,16 @@ New(s, k, kind, a) ==
        inst' = [inst EXCEPT ![s] = [kind |-> kind, cls |-> ClassOf[k], tok |-> a,
                                     ek |-> IF kind = "dec" THEN None ELSE ek,
                                     dk |-> IF kind = "enc" THEN None ELSE InvKeys(ek)]]
-    /\ UNCHANGED <<dead, perm>> /\ last' = NoObs
+    /\ dead' = [dead EXCEPT ![s] = {a}]
+    /\ UNCHANGED perm /\ last' = NoObs
     /\ Step([op |-> "new", i |-> s, k |-> k, kind |-> kind, arm |-> a])
 
 \* clone copies the arm named by the token
 Clone(s, t) ==
     /\ Live(s) /\ Free(t)
     /\ inst' = [inst EXCEPT ![t] = inst[s]]
-    /\ UNCHANGED <<dead, perm>> /\ last' = NoObs
+    /\ dead' = [dead EXCEPT ![t] = {inst[s].tok}]
+    /\ UNCHANGED perm /\ last' = NoObs
     /\ Step([op |-> "clone", src |-> s, i |-> t])
 
 \* From<Enc> (by value: consumes the source) / From<&Enc>: derive dk from the source's ek, keep the token
@@ -87,8 +89,9 @@ FromEnc(s, t, kind, byRef) ==
     /\ inst' = [inst EXCEPT ![t] = [kind |-> kind, cls |-> inst[s].cls, tok |-> inst[s].tok,
                                     ek |-> IF kind = "dec" THEN None ELSE inst[s].ek,
                                     dk |-> InvKeys(inst[s].ek)]]
-    \* by value the Enc instance is moved, not dropped: nothing is erased, nothing stays behind
-    /\ UNCHANGED <<dead, perm>> /\ last' = NoObs
+    \* by value the Enc instance is consumed (its destructor runs at the end of From::from)
+    /\ dead' = [dead EXCEPT ![t] = {inst[s].tok}]
+    /\ UNCHANGED perm /\ last' = NoObs
     /\ Step([op |-> "from", src |-> s, i |-> (IF byRef THEN t ELSE s), to |-> kind, by |-> (IF byRef THEN "ref" ELSE "value")])
 
 PermInv(c, y) == CHOOSE x \in Blocks : perm[c][x] = y
@@ -116,7 +119,7 @@ DecN(s, n, b) ==
 \* drop erases the arm named by the token (zeroize feature)
 Drop(s) ==
     /\ Live(s)
-    /\ dead' = [dead EXCEPT ![s] = {inst[s].tok} \ {inst[s].tok}]
+    /\ dead' = [dead EXCEPT ![s] = dead[s] \ {inst[s].tok}]
     /\ inst' = [inst EXCEPT ![s] = NoInst]
     /\ UNCHANGED perm /\ last' = NoObs
     /\ Step([op |-> "drop", i |-> s])
@@ -148,6 +151,9 @@ ArmStable == \A s \in Slots : Live(s) =>
 KindShape == \A s \in Slots : Live(s) =>
     /\ (inst[s].ek = None) <=> (inst[s].kind = "dec")
     /\ (inst[s].dk = None) <=> (inst[s].kind = "enc")
+    \* decryption uses keys that went through inv_keys, encryption the expanded keys themselves
+    /\ inst[s].ek # None => inst[s].ek.t = "ek"
+    /\ inst[s].dk # None => inst[s].dk.t = "dk"
 \* every observation equals the class permutation (C12, C15, C03): result depends on key class and input only
 Functional == last.op = "enc" => last.out = perm[inst[last.slot].cls][last.in]
 Inverse    == last.op = "dec" => perm[inst[last.slot].cls][last.out] = last.in          \* (C01)
@@ -156,8 +162,8 @@ CanonAgreement == \A s, t \in Slots : (Live(s) /\ Live(t) /\ inst[s].cls = inst[
     \A b \in Blocks :
         /\ (inst[s].ek # None /\ inst[t].ek # None) => perm[inst[s].ek.cls][b] = perm[inst[t].ek.cls][b]
         /\ (inst[s].ek # None /\ inst[t].dk # None) => PermInv(inst[t].dk.cls, perm[inst[s].ek.cls][b]) = b
-\* dropped storage holds no key material in any arm (C16)
-Erased == \A s \in Slots : Free(s) => dead[s] = {}
+\* dropped storage holds no key material in any arm (C16); live storage holds it exactly in the token's arm
+Erased == \A s \in Slots : IF Free(s) THEN dead[s] = {} ELSE dead[s] = {inst[s].tok}
 
 \* ------------------------------------------------- scenario emission (spec -> impl)
 \* evaluated for every transition TLC generates; prints the shortest path to the source state plus this edge
